@@ -4,6 +4,7 @@ import (
 	"fmt"
 	"go/token"
 	"go/types"
+	"os"
 	"runtime"
 	"slices"
 	"strings"
@@ -64,6 +65,7 @@ type frame struct {
 	panic            any
 	phitemps         []value
 	depth            int
+	cur              ssa.Instruction
 }
 
 // fnInfo caches per-function register numbering and call resolution.
@@ -148,6 +150,7 @@ func (m *Machine) step(fr *frame) {
 
 func (m *Machine) visitInstr(fr *frame, instr ssa.Instruction) continuation {
 	m.step(fr)
+	fr.cur = instr
 	switch instr := instr.(type) {
 	case *ssa.DebugRef:
 		// no-op
@@ -303,7 +306,9 @@ func (m *Machine) visitInstr(fr *frame, instr ssa.Instruction) continuation {
 			cp := m.concretizeRef(p)
 			fr.set(instr, &(*cp).(structure)[instr.Field])
 		case *opaque:
-			m.unsupported("field of opaque external value from " + p.from)
+			// only values returned by declared no-op packages (loggers,
+			// metrics) are opaque outside package initialisation
+			fr.set(instr, &opaque{t: instr.Type(), from: p.from, noop: p.noop})
 		default:
 			panic(fmt.Sprintf("FieldAddr on %T", p))
 		}
@@ -429,6 +434,9 @@ func (m *Machine) checkIndex(idx *Term, signed bool, n int) (int, bool) {
 		inRange = m.ts.False
 	}
 	if !m.branch(inRange, "bounds") {
+		if d := os.Getenv("SYMGO_DUMP"); d != "" {
+			os.WriteFile(fmt.Sprintf("%s/oob-%d.smt2", d, len(m.decs)), []byte(m.script([]*Term{inRange}, nil, "")), 0o644)
+		}
 		m.panicRuntime(fmt.Sprintf("index out of range [sym] with length %d", n))
 	}
 	if n == 1 {
@@ -534,7 +542,7 @@ func (m *Machine) call(caller *frame, site ssa.Instruction, fn value, args []val
 		ci, _ := site.(ssa.CallInstruction)
 		return m.callBuiltin(caller, ci, fn, args)
 	case *opaqueMethod:
-		return m.externalResult(fn.meth.Type().(*types.Signature), "method "+fn.meth.FullName()+" on opaque from "+fn.o.from)
+		return m.externalResult(fn.meth.Type().(*types.Signature), "method "+fn.meth.FullName()+" on opaque from "+fn.o.from, fn.o.noop)
 	case *nativeFn:
 		return fn.f(m, caller, args)
 	}
@@ -612,9 +620,9 @@ func (m *Machine) callSSA(caller *frame, site ssa.Instruction, fn *ssa.Function,
 	}
 	if fn.Blocks == nil || fi.noop {
 		if fi.noop {
-			return m.zeroResult(fn.Signature)
+			return m.externalResult(fn.Signature, fn.String(), true)
 		}
-		return m.externalResult(fn.Signature, fn.String())
+		return m.externalResult(fn.Signature, fn.String(), false)
 	}
 	if fn.TypeParams().Len() > 0 && len(fn.TypeArgs()) == 0 {
 		m.unsupported("uninstantiated generic function " + fn.String())
@@ -680,18 +688,20 @@ func (m *Machine) zeroResult(sig *types.Signature) value {
 // externalResult is what a call to a body-less, unmodelled function yields:
 // in lenient mode (package initialisation) opaque values; otherwise the path
 // is aborted as unsupported.
-func (m *Machine) externalResult(sig *types.Signature, name string) value {
-	if !m.lenient {
+func (m *Machine) externalResult(sig *types.Signature, name string, noop bool) value {
+	if !m.lenient && !noop {
 		m.unsupported("unsupported external: " + name)
 	}
 	res := sig.Results()
 	mk := func(t types.Type) value {
-		switch u := t.Underlying().(type) {
+		switch t.Underlying().(type) {
 		case *types.Pointer:
-			return &opaque{t: t, from: name}
+			return &opaque{t: t, from: name, noop: noop}
 		case *types.Interface:
-			_ = u
-			return iface{t: t, v: &opaque{t: t, from: name}}
+			if types.Identical(t, errorType) {
+				return iface{}
+			}
+			return iface{t: t, v: &opaque{t: t, from: name, noop: noop}}
 		}
 		return m.zero(t)
 	}
@@ -796,6 +806,13 @@ func (m *Machine) where(fr *frame) string {
 	var sb strings.Builder
 	for f, n := fr, 0; f != nil && n < 12; f, n = f.caller, n+1 {
 		fmt.Fprintf(&sb, "\n    %s", f.fn)
+		if f.cur != nil {
+			if p := f.cur.Pos(); p != token.NoPos {
+				fmt.Fprintf(&sb, " (%s)", m.P.Prog.Fset.Position(p))
+			} else {
+				fmt.Fprintf(&sb, " [%s]", f.cur)
+			}
+		}
 	}
 	return sb.String()
 }
